@@ -458,7 +458,41 @@ pub fn execute(scn_v: &Value) -> RunReport {
                     if vr.res().is_ok() {
                         rep.count("oracle.c09.reference_accepted");
                     }
-                    if vr.res().is_ok() && !accepted && !vo.res().is_panic() {
+                    // second reference, for an exp the verifier may misread whatever the instant
+                    // (9999-12-31, 2^53 …): the same credential signed by the same key with
+                    // exp = now + 1 day, checked at the same instant. Accepted while the original is
+                    // refused ⇒ the original was refused because of its exp. (Without key binding
+                    // only: a KB-JWT's sd_hash covers the issuer-signed JWT.)
+                    let mut misread_exp = false;
+                    if !accepted && !vr.res().is_ok() && !vo.res().is_panic() && session.is_none() {
+                        if let Some(mut p) = world::payload_of(&m) {
+                            p.insert("exp".into(), json!(tv + 86_400));
+                            let alg = scn.issuer.alg.clone().unwrap_or_else(|| crate::keys::alg_of(&scn.issuer.key).to_string());
+                            let typ = crate::model::decode_jwt_part(&m.h).and_then(|h| h.get("typ").and_then(Value::as_str).map(str::to_string));
+                            if let Some(t) = w.byz_sign(&scn.issuer.key, &alg, typ.as_deref(), &Value::Object(p)) {
+                                let parts: Vec<&str> = t.split('.').collect();
+                                let mut m2 = m.clone();
+                                if parts.len() == 3 {
+                                    m2.h = parts[0].into();
+                                    m2.p = parts[1].into();
+                                    m2.s = parts[2].into();
+                                }
+                                if let Some(wire2) = m2.serialize(*fmt) {
+                                    let v2 = w.verify(n_v, &wire2, *fmt, None, &Resolver::Directory);
+                                    rep.evaluations += 1;
+                                    rep.count("oracle.c09.reference_with_near_exp");
+                                    misread_exp = v2.res().is_ok();
+                                }
+                            }
+                        }
+                    }
+                    if misread_exp {
+                        viol = Some((
+                            "in-window-not-rejected".into(),
+                            "c09:rejected_in_window".into(),
+                            json!({"verdict": vo.res().describe(), "exp": claims.get("exp"), "nbf": nbf_num, "verifier_local_time": tv, "note": "the same credential with exp = now + 1 day is accepted at the same instant", "format": fmt.name()}),
+                        ));
+                    } else if vr.res().is_ok() && !accepted && !vo.res().is_panic() {
                         viol = Some((
                             "in-window-not-rejected".into(),
                             "c09:rejected_in_window".into(),
